@@ -34,11 +34,34 @@ ENGINES["buildsim"] = {
 RULE_BUILD = ("each run is one tape-decided history of 1-3 builder nodes (arena configuration, operation sequence, copies between nodes, injected allocation failure); "
               "non-trivial = at least one operation executed and one oracle evaluation made; distinct = distinct hashes of the final segment bytes of all nodes")
 
+ENGINES["readsim"] = {
+    "real": ["read side of the root package (segment.go, rawpointer.go, address.go, list.go, struct.go, pointer.go, message.go, canonical.go), encoding/text, pogs, internal/packed via UnmarshalPacked / NewPackedDecoder, Message.canRead budget (atomics instrumented with schedule points)"],
+    "stub": ["storage / link between writer and reader (bit flips, hostile pointer words, torn / dropped / duplicated / swapped segments, tampered segment table)", "faulty Arena", "byte pipe for the Decoder path", "scheduler for concurrent readers"],
+}
+
+RULE_READ = ("each run is one tape-decided message (random value tree or aircraftlib message, or a hand-assembled cyclic pointer graph), 0-4 storage faults, one delivery path, "
+             "limits T and D, and 1-4 readers; non-trivial = at least one storage fault fired or at least one preemptive context switch between readers; "
+             "distinct = distinct hashes of (delivered segment bytes, delivery path, schedule trace)")
+
 RULE_SCHED = ("each run is one seeded schedule+workload drawn from the choice tape; a run is non-trivial if it had at least one "
               "preemptive context switch or fired fault; distinct = distinct hashes of the full decision trace (schedule choices, "
               "fired faults, fired events) among non-trivial runs")
 
 CHECKS = {
+    "C01": {
+        "claim": "fault injection on stored / in-flight bytes between a writer node and a reader node: bit flips, boundary-valued hostile pointer words (offsets onto the last word / one past the end / before the start, huge counts, composite tags with zero-size elements and negative counts, far pointers to missing segments, bad landing pads, unknown pointer kinds), torn, dropped, duplicated and swapped segments, tampered segment tables and faulty arenas, delivered through every unmarshal/decoder path; 1-3 readers (sequentially, or concurrently under the scheduler) apply every read-side operation; no panic, no process abort, no hang, and every byte slice handed out lies inside the supplied bytes (segments have cap==len)",
+        "engine": "readsim", "level": "exploration",
+        "budget": {"quick": 25, "thorough": 600},
+        "rule": RULE_READ,
+        "faults": ["bitflip", "word_smash", "truncate_segment", "segment_drop", "segment_dup", "segment_swap", "segtable_tamper", "arena_fault"],
+    },
+    "C02": {
+        "claim": "hand-assembled cyclic and aliasing pointer graphs (through struct fields, composite-list elements and pointer-list elements) are read by 1-4 concurrent readers with a schedule point before every atomic operation of the read budget; (a) the true size of everything handed out never exceeds T, (b) per-object charges calibrated in a sequential prelude are at least the true size and the concurrent history is linearizable (porcupine) against the sequential budget, including the final value of the limit, (c) no dereference succeeds deeper than D, (d) deep copy, Canonicalize, Equal and CopyFrom on a cyclic chain consume budget bounded by D rather than T",
+        "engine": "readsim", "level": "exploration",
+        "budget": {"quick": 25, "thorough": 600},
+        "rule": RULE_READ,
+        "faults": ["pointer_rewire (hand-assembled cycles)"],
+    },
     "C04": {
         "claim": "seeded search over builder histories on simulated allocators (exact-fit, dirty spare capacity, forced new segments, one injected allocation failure) and the library's own arenas: after every few operations the whole tree is read back through the accessors and compared with a value-tree model, and at the end through Marshal/Unmarshal, MarshalPacked/UnmarshalPacked and Encoder->pipe->Decoder (packed or not, tape-chosen chunking, buffer reuse)",
         "engine": "buildsim", "level": "exploration",
@@ -116,6 +139,7 @@ CHECKS = {
 
 
 ENGINE_KIND = {
+    "readsim": "deterministic simulation of writer -> faulty storage -> 1-4 readers; linearizability of the read budget checked with porcupine",
     "buildsim": "deterministic simulation of builder nodes on simulated allocators with an executable value-tree model and independent wire-format oracles",
     "streamsim": "deterministic simulation of writer -> faulty byte pipe -> reader for the packed codec and the stream framing, with per-stream cut-point enumeration",
     "capsim": "deterministic simulation of tasks sharing capnp.Client handles, weak refs and client promises",
